@@ -680,6 +680,60 @@ fn cli_obs(path: &std::path::Path, text: &str, comms: &[String]) -> RObs {
     }
 }
 
+fn cli_obs_words(path: &std::path::Path, words: &[String], comms: &[String]) -> RObs {
+    let p = path.to_string_lossy().to_string();
+    let mut args: Vec<&str> = vec!["primitive", "eval", "--date", "2020-01-01", "-f", &p, "--"];
+    args.extend(words.iter().map(|w| w.as_str()));
+    let r = cli::run(&args);
+    if r.panicked {
+        RObs::Panic
+    } else if r.ok {
+        RObs::Amt(parse_inline(r.stdout.trim_end(), comms))
+    } else {
+        RObs::Err(cli_err_code(&r.stderr))
+    }
+}
+
+/// the ways a user types the expression after `okane primitive eval ... --`: the command joins
+/// its words with blanks and evaluates them as one parenthesised group, so all of these mean
+/// the same expression (name, argv words)
+fn typed_shapes(t: &VE) -> Vec<(&'static str, Vec<String>)> {
+    let once = match t {
+        VE::Paren(_) => ve_text(t),
+        VE::Amt(_) => format!("({})", ve_text(t)),
+    };
+    let bare = match t {
+        VE::Paren(e) => ex_text(e),
+        VE::Amt(_) => ve_text(t),
+    };
+    let split = |s: &str| s.split(' ').filter(|w| !w.is_empty()).map(|w| w.to_string()).collect::<Vec<String>>();
+    let mut out = vec![
+        ("bare", vec![bare.clone()]),
+        ("wrapped_once", vec![once.clone()]),
+        ("wrapped_twice", vec![format!("({})", once)]),
+        ("bare_one_word_per_token", split(&bare)),
+        ("wrapped_once_one_word_per_token", split(&once)),
+        ("bare_blanks_around", vec![format!(" {}  ", bare)]),
+        ("wrapped_once_blanks_around", vec![format!("  {} ", once)]),
+    ];
+    if let VE::Paren(e) = t {
+        if let Ex::Bin(op, l, r) = &**e {
+            let o = match op {
+                Op::Add => "+",
+                Op::Sub => "-",
+                Op::Mul => "*",
+                Op::Div => "/",
+            };
+            let g = format!("({}) {} ({})", ex_text(l), o, ex_text(r));
+            out.push(("group_op_group", vec![g.clone()]));
+            out.push(("group_op_group_one_word_per_token", split(&g)));
+            out.push(("group_op_group_three_words", vec![format!("({})", ex_text(l)), o.to_string(), format!("({})", ex_text(r))]));
+            out.push(("group_op_group_blanks_around", vec![format!(" {} ", g)]));
+        }
+    }
+    out
+}
+
 fn emit<'c>(
     cx: &mut Ctx,
     ledger: &mut report::query::Ledger<'c>,
@@ -712,6 +766,21 @@ fn emit<'c>(
         let fb = &mut fmt_bases[table];
         (eval_obs(&mut fb.ledger, &fb.rctx, &text, &cx.comms), cli_obs(&fb.path, &text, &cx.comms))
     };
+    // the command again, with the expression typed in every other way
+    let mut shapes: Vec<RObs> = Vec::new();
+    let mut sjson = serde_json::Map::new();
+    for (k, (name, words)) in typed_shapes(t).into_iter().enumerate() {
+        // one in three on the ledger with declarations
+        let path = if (cx.emitted + k) % 3 == 0 { fmt_bases[table].path.clone() } else { cx.base_path.clone() };
+        let ob = cli_obs_words(&path, &words, &cx.comms);
+        cx.st.count(&format!("cli_typed:{}", name));
+        let starts_ends_group = words.first().map_or(false, |w| w.trim_start().starts_with('(')) && words.last().map_or(false, |w| w.trim_end().ends_with(')'));
+        if starts_ends_group && (name.starts_with("group_op_group") || name.starts_with("bare")) {
+            cx.st.count("cli_typed:top_level_operator_between_two_groups");
+        }
+        sjson.insert(name.to_string(), json!({"argv": words, "result": robs_json(&ob)}));
+        shapes.push(ob);
+    }
     let mut lobs = Vec::new();
     let mut ljson = serde_json::Map::new();
     // header shape of the five ledgers and sample-number shape of the declarations: by case number
@@ -777,7 +846,7 @@ fn emit<'c>(
     }
     let rep = json!({"property": "C08", "expr": text, "tree": serde_json::to_value(t).unwrap(),
         "fmt_table": table, "shape_n": nth,
-        "impl": {"parsed_as": parsed.as_ref().map(|p| ve_text(p)), "ledger_eval": robs_json(&ev), "cli_eval": robs_json(&cl),
+        "impl": {"parsed_as": parsed.as_ref().map(|p| ve_text(p)), "ledger_eval": robs_json(&ev), "cli_eval": robs_json(&cl), "cli_eval_typed": sjson,
                  "positions": ljson,
                  "declared_precisions": FORMAT_TABLES[table].iter().map(|(c, dp)| format!("{} {}", COMMODITIES[*c], dp)).collect::<Vec<_>>(),
                  "declared_ledger_eval": robs_json(&fev), "declared_cli_eval": robs_json(&fcl), "declared_positions": fjson},
@@ -786,7 +855,7 @@ fn emit<'c>(
         cx.st.sample(rep.clone(), 5);
     }
     let term = format!(
-        "CF {} {} {} {} {} {} {} {} {} {}",
+        "CFS {} {} {} {} {} {} {} {} {} {} {}",
         ve_term(t),
         coq::list(toks.iter().map(tok_term)),
         coq::opt(parsed.as_ref().map(ve_term)),
@@ -796,7 +865,8 @@ fn emit<'c>(
         coq::list(FORMAT_TABLES[table].iter().map(|(c, dp)| format!("({}, {}%nat)", c, dp))),
         robs_term(&fev),
         robs_term(&fcl),
-        flobs.join(" ")
+        flobs.join(" "),
+        coq::list(shapes.iter().map(robs_term))
     );
     cx.sh.push(term, vec![rep]);
 }
@@ -868,7 +938,7 @@ pub fn run(o: &Opts) {
         emitted: 0,
         _scratch: &scratch,
     };
-    cx.st.rule = "expression trees generated along the grammar of parse/expr.rs (add over mul over unary over value; parentheses where the grammar needs them, plus redundant ones in the random stream) over six literals (number, zero, amount, zero amount, negative amount, second commodity), plus a stream of divisions whose divisor has no finite reciprocal (3, 6, 7, 9, 11, 12, 13, 0.3, 0.07, 1.4, 15, 21, 3.3, 24, 4.5, -3, -7) and whose dividend - a literal, a sum, a difference, a product, two commodities; a commodity amount, a bare number, or a number over an amount - is an exact multiple of it, under up to two further operators (counted as division:exact_quotient_by_divisor_without_finite_reciprocal; all compared exactly); printed to text; the text is parsed by syntax::expr::ValueExpr::try_from (tree compared) and evaluated by Ledger::eval, `okane primitive eval`, and as posting amount, @ cost, {} lot price, balance assertion and balance assignment through report::process - all seven twice: on ledgers without declarations and on ledgers that declare display precisions (`commodity X` + `format`, four tables rotating, whole units most often), where the answers must be the same exact values; non-trivial = at least one operator; distinct by expression text".into();
+    cx.st.rule = "expression trees generated along the grammar of parse/expr.rs (add over mul over unary over value; parentheses where the grammar needs them, plus redundant ones in the random stream) over six literals (number, zero, amount, zero amount, negative amount, second commodity), plus a stream of divisions whose divisor has no finite reciprocal (3, 6, 7, 9, 11, 12, 13, 0.3, 0.07, 1.4, 15, 21, 3.3, 24, 4.5, -3, -7) and whose dividend - a literal, a sum, a difference, a product, two commodities; a commodity amount, a bare number, or a number over an amount - is an exact multiple of it, under up to two further operators (counted as division:exact_quotient_by_divisor_without_finite_reciprocal; all compared exactly); printed to text; the text is parsed by syntax::expr::ValueExpr::try_from (tree compared) and evaluated by Ledger::eval, `okane primitive eval` (the printed text as one word, and typed in every other way: without the outer group, wrapped once and twice, `(a) op (b)` for a top-level operator, one argv word per token, three words, blanks around - cli_typed:* counts, two in three on the ledger without declarations; every way must give the value of the one expression), and as posting amount, @ cost, {} lot price, balance assertion and balance assignment through report::process - all seven twice: on ledgers without declarations and on ledgers that declare display precisions (`commodity X` + `format`, four tables rotating, whole units most often), where the answers must be the same exact values; non-trivial = at least one operator; distinct by expression text".into();
     cx.st.assumptions.push("an inexact quotient (Decimal rounds to 28 digits) is only generated at the root of a tree, where it is compared up to 1e-18 relative; everywhere else values are compared exactly".into());
     cx.st.assumptions.push("literal mantissas below 10^7, at most 8 operators: no Decimal overflow".into());
     cx.st.assumptions.push("parentheses nested far less than the parser's MAX_EXPR_DEPTH = 100 and trees far lower than its MAX_EXPR_HEIGHT = 256, i.e. chains far shorter than 255 operators (the token-level model has neither bound)".into());
